@@ -72,6 +72,11 @@ class Gen(object):
       return self.lit(t)
     k = r.random()
     if t == 'N':
+      if r.random() < 0.12:
+        # unary minus, also of something that itself starts with a minus (negative literal, another negation)
+        self.tags.add('unary-minus')
+        inner = r.choice(['-%d' % r.randrange(1, 9), '(-%s)' % self.expr('N', env, d - 1), self.expr('N', env, d - 1)])
+        return '(-%s)' % inner if inner.startswith('(') or not inner.startswith('-') else '(-(%s))' % inner
       if k < 0.35:
         self.tags.add('arith')
         return '(%s %s %s)' % (self.expr('N', env, d - 1), r.choice(['+', '-', '*']), self.expr('N', env, d - 1))
